@@ -1,5 +1,8 @@
 import Enc.Model.Thrift
 import Enc.Spec.Thrift
+import Enc.Lemmas.ThriftZig
+import Enc.Lemmas.ThriftPrim
+import Enc.Lemmas.ThriftDecode
 /-!
 # C04 — thrift: Unmarshal(Marshal(v)) == v for binary and compact protocols
 Property theorems only.
@@ -8,23 +11,38 @@ namespace Enc.Props.C04
 open Enc Enc.Model.Thrift
 
 /-- zig-zag (compact integers) is inverted exactly by the reader, for every integer -/
-theorem unzigzag_zigzag (i : Int) : unzigzag (zigzag64 i) = i := by
-  unfold unzigzag zigzag64
-  by_cases h : i ≥ 0
-  · simp only [h, if_true]
-    have : (2 * i).toNat % 2 = 0 := by omega
-    simp only [this, if_true]
-    omega
-  · simp only [h, if_false]
-    have : (-2 * i - 1).toNat % 2 = 1 := by omega
-    have h2 : ¬ ((-2 * i - 1).toNat % 2 = 0) := by omega
-    simp only [h2, if_false]
-    omega
+theorem unzigzag_zigzag (i : Int) : unzigzag (zigzag64 i) = i := Lemmas.ThriftZig.unzigzag_zigzag i
 
 /-- Encoder/Decoder.Reset: the protocol-dependent behaviour of the model is a function of the protocol alone
 (delta encoding and bool coalescing are derived from `Proto`, never from history) -/
 theorem flags_depend_on_protocol_only (p : Proto) :
     (p.delta = match p with | .compact => true | _ => false) ∧ (p.coalesce = match p with | .compact => true | _ => false) := by
   cases p <;> exact ⟨rfl, rfl⟩
+
+/-- integers survive both protocols: big-endian fixed width (binary) and zig-zag varint (compact), for every value of
+the width -/
+theorem i64_roundtrip (p : Proto) (i : Int) (h : -2^63 ≤ i ∧ i < 2^63) (rest : Bytes) :
+    rI64 p (wI64 p i ++ rest) = .ok (i, rest) := Lemmas.ThriftPrim.rI64_wI64 p i h rest
+theorem i32_roundtrip (p : Proto) (i : Int) (h : -2^31 ≤ i ∧ i < 2^31) (rest : Bytes) :
+    rI32 p (wI32 p i ++ rest) = .ok (i, rest) := Lemmas.ThriftPrim.rI32_wI32 p i h rest
+theorem i16_roundtrip (p : Proto) (i : Int) (h : -2^15 ≤ i ∧ i < 2^15) (rest : Bytes) :
+    rI16 p (wI16 p i ++ rest) = .ok (i, rest) := Lemmas.ThriftPrim.rI16_wI16 p i h rest
+theorem bytes_roundtrip (p : Proto) (b : Bytes) (h : b.length ≤ 2147483647) (rest : Bytes) :
+    rBytes p (wBytes p b ++ rest) = .ok (b, rest) := Lemmas.ThriftPrim.rBytes_wBytes p b h rest
+
+/-- list/set headers: short and long compact forms and the binary form are read back exactly -/
+theorem list_header_roundtrip (p : Proto) (t : TType) (n : Nat) (ht : Lemmas.ThriftPrim.isReal t = true)
+    (hn : n ≤ 2147483647) (rest : Bytes) : rList p (wList p t n ++ rest) = .ok ((t, n), rest) :=
+  Lemmas.ThriftPrim.rList_wList p t n ht hn rest
+
+/-- **Round trip through the decoder, partial**: `decode (encode v) = v` for every protocol and strictness, for the
+fragment `Lemmas.ThriftSkip.RT` (bool, integers in range, doubles, strings, binaries, lists at any nesting, non-nil
+pointers, named types). Structs, maps and sets are corresponded by the harness (and covered on the skipping side by
+`Props.C08.skip_consumes_exactly`); what is missing for them is a proof about the key-deduplicating `mapPut` and the
+field table. -/
+theorem decode_encode_partial (p : Proto) (strict : Bool) (ty : Ty) (v : Val) (h : Lemmas.ThriftSkip.RT ty v = true)
+    (fuel : Nat) (rest : Bytes) (cur : Val) (hf : Lemmas.ThriftSkip.fuelD ty v ≤ fuel) :
+    decode p strict fuel ty (encode p ty v ++ rest) cur = .ok (v, rest) :=
+  Lemmas.ThriftSkip.decode_encode p strict ty v h fuel rest cur hf
 
 end Enc.Props.C04
